@@ -572,3 +572,80 @@ def measurement_keys_kept(ctx, node_fi, rule):
         ctx.ob(rule, node_fi, node, v[0], 'the attribute order of a measurement\'s `%s` is the layout of its Q and y and must be kept when the measurement is '
                're-packed; `%s`%s' % (p, U(e)[:60], '' if v[0] else ': ' + v[1]), construct='re-packed measurement key `%s`' % U(e)[:50])
     return n
+
+
+def covering_relation(ctx, fi, rule, graph='G'):
+    """RegionGraph.build_graph: an edge r1 -> r2 exactly when r2 is a proper sub-region of r1 with NO region strictly in between (the
+    covering relation of the regions under inclusion).  Read on set-builder terms from the one `add_edge(r1, r2)` inside the loops over
+    the regions:
+        r2 ranges over the regions with set(r2) < set(r1)                       (as a condition, or as a filtered list `below`)
+        kept unless  any(set(r2) < set(r3) [and set(r3) < set(r1)] for r3 in ..)  (r3 over the regions, or over `below`)
+    A test between r2 and r3 by CARDINALITY (`len(r2) < len(r3)`) selects the largest sub-regions, not the maximal ones: a small sub-region
+    incomparable with the large ones loses its edge and is never made consistent with r1."""
+    import re
+    raw = getattr(fi, 'original', fi)
+    adds = [c for c in ast.walk(raw.node) if isinstance(c, ast.Call) and isinstance(c.func, ast.Attribute) and c.func.attr == 'add_edge'
+            and len(c.args) == 2 and all(isinstance(a, ast.Name) for a in c.args)]
+    cands = []
+    for c in adds:
+        # enclosing loops / tests
+        chain, n = [], c
+        while getattr(n, '_parent', None) is not None and n is not raw.node:
+            n = n._parent
+            chain.append(n)
+        loops = [x for x in chain if isinstance(x, ast.For) and isinstance(x.target, ast.Name)]
+        tests = [x for x in chain if isinstance(x, ast.If)]
+        if len(loops) >= 2 and tests:
+            cands.append((c, loops, tests))
+    if not cands:
+        return 0
+    n_ob = 0
+    for c, loops, tests in cands:
+        r1, r2 = c.args[0].id, c.args[1].id
+        by_var = {lp.target.id: lp for lp in loops}
+        if r1 not in by_var or r2 not in by_var:
+            continue
+        conds = []
+        for t in tests:
+            conds.extend(t.test.values if isinstance(t.test, ast.BoolOp) and isinstance(t.test.op, ast.And) else [t.test])
+        sub = 'set(%s)<set(%s)' % (r2, r1)
+        it2 = by_var[r2].iter
+        below = None
+        if isinstance(it2, ast.Name):
+            ds = [a.value for a in ast.walk(raw.node) if isinstance(a, ast.Assign) and len(a.targets) == 1 and U(a.targets[0]) == it2.id]
+            if len(ds) == 1 and isinstance(ds[0], ast.ListComp) and len(ds[0].generators) == 1 and len(ds[0].generators[0].ifs) == 1 and \
+                    U(ds[0].elt) == U(ds[0].generators[0].target) and \
+                    U(ds[0].generators[0].ifs[0]).replace(' ', '') == 'set(%s)<set(%s)' % (U(ds[0].elt), r1):
+                below = it2.id
+        ctext = [U(x).replace(' ', '') for x in conds]
+        proper = below is not None or sub in ctext or ('set(%s)>set(%s)' % (r1, r2)) in ctext
+        between = [x for x in conds if isinstance(x, ast.UnaryOp) and isinstance(x.op, ast.Not) and isinstance(x.operand, ast.Call) and U(x.operand.func) == 'any'
+                   and len(x.operand.args) == 1 and isinstance(x.operand.args[0], (ast.GeneratorExp, ast.ListComp)) and len(x.operand.args[0].generators) == 1]
+        if not proper or len(between) != 1:
+            continue
+        g = between[0].operand.args[0]
+        r3 = U(g.generators[0].target)
+        src = U(g.generators[0].iter)
+        parts = g.elt.values if isinstance(g.elt, ast.BoolOp) and isinstance(g.elt.op, ast.And) else [g.elt]
+        ptext = sorted(U(x).replace(' ', '') for x in parts) + sorted(U(x).replace(' ', '') for x in g.generators[0].ifs)
+        lo, hi = 'set(%s)<set(%s)' % (r2, r3), 'set(%s)<set(%s)' % (r3, r1)
+        lo2, hi2 = 'set(%s)>set(%s)' % (r3, r2), 'set(%s)>set(%s)' % (r1, r3)
+        norm_ = sorted({lo2: lo, hi2: hi}.get(x, x) for x in ptext)
+        ok = None
+        if below is not None and src == below and norm_ in ([lo], sorted([lo, hi])):
+            ok = True
+        elif src not in (below,) and norm_ == sorted([lo, hi]):
+            ok = True
+        elif any(re.fullmatch(r'len\(%s\)[<>]=?len\(%s\)' % (re.escape(a), re.escape(b)), x) for x in norm_ for a, b in ((r2, r3), (r3, r2))):
+            ok = False
+            why = ('`%s` compares the regions by CARDINALITY: it keeps the largest sub-regions of `%s`, not the maximal ones - a smaller sub-region that '
+                   'is contained in none of the larger ones loses its edge' % (U(g.elt)[:60], r1))
+        elif src not in (below,) and norm_ == [lo]:
+            ok = False
+            why = 'the region in between is not required to lie below `%s` (`%s` alone): any larger region anywhere removes the edge' % (r1, lo)
+        if ok is None:
+            raise AnalysisError('%s: the "no region in between" test `%s` is in no recognised form' % (raw.qualname, U(between[0])[:90]))
+        n_ob += 1
+        ctx.ob(rule, fi, between[0], ok, 'edge %s -> %s iff %s is a proper sub-region of %s with no region strictly in between (inclusion, both sides)%s'
+               % (r1, r2, r2, r1, '' if ok else ': ' + why), construct='covering relation of the regions')
+    return n_ob
